@@ -721,20 +721,26 @@ for _pid, (_src, _defs, _q, _t, _ml) in GFUZZ.items():
 
 # ---------------------------------------------------------------------------------------------- later additions to the case rules
 RULE_ADDENDA = {
+    "C11": " ; enumerated 'short-decimals': m x 10^k for k = -330..310 and m < 10,000 (m < 100,000 in the subnormal range and at the top), both signs",
     "C19": " ; a word operand equal to one of the object's own words is handed over as that word (by reference into its storage)",
-    "C10": " ; every real with precision <= 2 (one in four otherwise; one in 32 inside the enumerations) is printed again into a stream that had held 420 '9's and 420 units of another digit and was cleared (stale storage behind the content)",
-    "C08": " ; one case in three (alias=2) has an Undefined value and a pointer to it among the pointer targets; enumerated: arrays of two strings of 0.7..16 Mi units (6 pairs of lengths x escape/none x 3 widths), text compared unit for unit and parsed back",
+    "C10": " ; every real with precision <= 2 (one in four otherwise; one in 32 inside the enumerations) is printed again into a stream that had held 420 '9's and 420 units of another digit and was cleared (stale storage behind the content)"
+           " ; stream prefixes also end in '-', 'e', '.', a digit ('3-', '1e', '0.', '1.9'); enumerated 'big-ties': 16-23 digit integers ending in 5 and zeros (decimal ties from 2^53 up) and their neighbours one and two ulps away at the tie's precision, 2 M per shard in quick, 100 M in thorough",
+    "C08": " ; one case in three (alias=2) has an Undefined value and a pointer to it among the pointer targets; enumerated: arrays of two strings of 0.7..16 Mi units (6 pairs of lengths x escape/none x 3 widths), text compared unit for unit and parsed back"
+           " ; alias=2 replaces half of the table reals by short decimals from 1e17 up (2e22, 1.7e22, 1.2345678901234e17 ...)",
     "C05": " ; enumerated through the all-or-nothing harness: texts nested 250..2000 levels (22 depths x 4 shapes) - every sampled proper prefix, trailing units and 14 malformed cores at the deepest level are rejected whole",
     "C01": "; two cases in three build the value with aimed extras (a member holding the template's own tail plus one unit, a storage-less string, a short string "
            "next to one that continues with NULs) and one template in twelve of those is an 'aimed comparison'; boundary classes: 250-261 <if> levels around "
            "loops with sort / group, attributes quoted by operator characters"
-           " ; half of the cases (gen2=2) turn one template in eight into an 'expression soup': 2-5 operands drawn from 64-bit limits, variables of every kind, text and text that starts like a number (2x, 1 0, 1.5.2, 0x1g), between random operators, inside {math:}, an inline if, an <if> or a loop",
+           " ; half of the cases (gen2=2) turn one template in eight into an 'expression soup': 2-5 operands drawn from 64-bit limits, variables of every kind, text and text that starts like a number (2x, 1 0, 1.5.2, 0x1g), between random operators, inside {math:}, an inline if, an <if> or a loop"
+           " ; gen2=2 boundary classes: an unclosed {var: / {raw: inside true= / false= whose body is 256*m + k units long with the attribute's closing quote as its (k+1)-th unit; loop value / set / group names of 255 .. 513 units",
     "C02": "; one case in three writes phrases and text runs with look-alike units (bytes above 0x7F = U+0100|c in the 2- and 4-byte builds: '{', '}', '<', ':', "
            "digits as low bytes); one deep case in seven nests beyond 255 open tags; one build runs with QENTEM_AUTO_ESCAPE_HTML=0"
-           " ; one case in four (alias=2) names the grouping member 'year' and gives objects a member 'pear' (same hash) in any slot, writes words that start like a tag (<iframe ...>, <loops>, <elsewhere>, <ifx>) as text runs and names loop values by the first letters of root members (n, s, i, p, f ... next to num, str, items)",
+           " ; one case in four (alias=2) names the grouping member 'year' and gives objects a member 'pear' (same hash) in any slot, writes words that start like a tag (<iframe ...>, <loops>, <elsewhere>, <ifx>) as text runs and names loop values by the first letters of root members (n, s, i, p, f ... next to num, str, items)"
+           " ; alias=2 also draws sets of signed integers of both signs (sorted both ways); cases whose reference arithmetic leaves 64 bits are discarded",
     "C03": "; the parsed form reaches the renderer directly, through a caller-owned tag cache, through a copy-constructed cache or through a cache copy-assigned over "
            "another template's tags (chosen by the template text)"
-           " ; an unresolved {var:NAME} and a loop key are also printed as the sub tag of a {svar:} (phrase ({0}) / {0})",
+           " ; an unresolved {var:NAME} and a loop key are also printed as the sub tag of a {svar:} (phrase ({0}) / {0})"
+           " ; in the 2- and 4-byte builds the {svar:} phrase ends with braces around units whose low byte is a digit (U+0130, U+4E31, U+1F630)",
     "C04": "; one case in forty nests parentheses 254..1000 deep (left-nested, right-nested, redundant pairs, alternating)"
            " ; two cases in three (gen2=1) also draw decimals a hair away from a whole number (3.0000000000001, 1.9999999999999, 3.0000000000000004 ...) as literals and exponents",
     "C06": "; enumerated: strings of 255 .. 1,048,577 units with an escape at the start / middle / end / nowhere, as array element, member value and member key, "
@@ -751,10 +757,12 @@ RULE_ADDENDA = {
            " ; half of the cases (gen2=2) add to the full-hash theme a stem of 64 / 96 / 128 units and its one-unit variants at the outer positions whose hash is confirmed equal",
     "C14": "; two cases in three append copies of own elements (a += a[i], Insert(a[i])) and compare long near-equal operands (16-75 units, one differing unit anywhere) "
            "and views sharing their start, with the ordering operators against a lexicographic model"
-           " ; twice per case (1 in 8 of the gen2 cases) a StringStream gets a range from a buffer mapped k*2^32 units (+ less than its length) away from its own block while it has to grow, and a String is assigned / appended from its own tail as a C string; the quick tier also runs a sanitizer-free build",
+           " ; twice per case (1 in 8 of the gen2 cases) a StringStream gets a range from a buffer mapped k*2^32 units (+ less than its length) away from its own block while it has to grow, and a String is assigned / appended from its own tail as a C string; the quick tier also runs a sanitizer-free build"
+           " ; gen2=2 draws, in the 2- and 4-byte strings, units whose low byte is a whitespace code (U+4E0A, U+2020 ...; above the BMP too)",
     "C15": "; every string pair is also compared widened to 2- and 4-byte units, stretched to 16-80 units by a common prefix / suffix, and (when one is a prefix of the "
            "other) as views of one buffer"
-           " ; enumerated 'big-sorts': 1025..5000 items in six shapes (random, sorted, reversed, equal, few distinct, organ pipe) in Array<unsigned>, a Value array and the keys of a hash array, both directions, and 20000 sorted / reversed / equal items on a thread with a 512 KiB stack",
+           " ; enumerated 'big-sorts': 1025..5000 items in six shapes (random, sorted, reversed, equal, few distinct, organ pipe) in Array<unsigned>, a Value array and the keys of a hash array, both directions, and 20000 sorted / reversed / equal items on a thread with a 512 KiB stack"
+           " ; the value universe ends with -0.0, the smallest subnormals of both signs, 2^63 as a double and a pointer to -0.0",
     "C16": "; two cases in three may start with a nest of 9-13 loops over a two-element array"
            " ; the group-by harness (C18) runs here too: the grouping is read again after its source has been overwritten and released",
     "C17": "; one case in three holds containers behind pointer values, one in three gives the root object 24 more members (tables above 16 items); for those only purity "
@@ -762,9 +770,11 @@ RULE_ADDENDA = {
            " ; one renderer object and one cache render a copy of the value three times while its members are taken out and put back in reverse order / replaced in between; Template::Render with a shared, already used tag cache runs on 3 threads for the template and for the template behind an unclosed <loop> (parses to nothing)",
     "C18": "; one case in three takes numeric group values from the table of numbers that share a 64-bit pattern across kinds; the destination of GroupBy is pre-filled in "
            "seven ways (fresh, earlier groupings, array, string, number, object)"
-           " ; one case in four (twins=2) names the grouping member 'year' and the others 'pear', 'dear', 'fear' and a name whose hash is the forced top bit only, and uses two such names as group values; the grouping is read again (also through a copy) after its source was overwritten and released",
+           " ; one case in four (twins=2) names the grouping member 'year' and the others 'pear', 'dear', 'fear' and a name whose hash is the forced top bit only, and uses two such names as group values; the grouping is read again (also through a copy) after its source was overwritten and released"
+           " ; twins=3: the grouping member is 't' and a sibling is 'ti' (the key plus one unit, same hash)",
     "C20": "; one generated case in eighty and a thin slice of the enumeration put 4,000-66,000 units in front of the escape"
-           " ; one generated case in five and one enumerated scalar in thirteen put the escape into a run of 2-9 adjacent escapes (D000-D7FF next to surrogate pairs, astral, E000.., ASCII)",
+           " ; one generated case in five and one enumerated scalar in thirteen put the escape into a run of 2-9 adjacent escapes (D000-D7FF next to surrogate pairs, astral, E000.., ASCII)"
+           " ; one generated case in ten and one enumerated scalar in 101 map the document a multiple of 2^32 units (minus a few) away from the caller's scratch stream, which has to grow for the run behind the escape (plain build: the address is free there)",
 }
 for _pid, _t in RULE_ADDENDA.items():
     SPECS[_pid]["rule"] += _t
